@@ -128,6 +128,10 @@ func VerifyFunction(L *Loaded, cs *ContractSet, fn *ssa.Function, opts VerifyOpt
 		x.fvCells[fv.Name()] = c
 		x.inputs[fv.Name()] = v.T
 		x.fvPtrs[fv] = Val{Loc: &Loc{Kind: LCell, Cell: c, Elem: T}, Typ: fv.Type()}
+		// a captured strings.Builder holds some text already when the closure runs
+		if n, ok := T.(*types.Named); ok && n.Obj().Pkg() != nil && n.Obj().Pkg().Path() == "strings" && n.Obj().Name() == "Builder" && x.te.StrSort == "String" {
+			st.ghost[fmt.Sprintf("sb:%d", c.id)] = x.d.Fresh("sb_"+fv.Name(), "String")
+		}
 	}
 	fr0 := &Frame{fn: fn, params: params, isEntry: true, vals: map[ssa.Value]Val{}}
 	env := x.entryEnv(fr0, st)
